@@ -46,3 +46,4 @@ import jobs_c06  # noqa: E402,F401
 import jobs_c19  # noqa: E402,F401
 import jobs_c16  # noqa: E402,F401
 import jobs_c10  # noqa: E402,F401
+import jobs_c11  # noqa: E402,F401
